@@ -5,10 +5,10 @@
 #include <vector>
 struct RngDev {
   int variant = 0;                                        // which compiled configuration of util-get-random-bytes.c
-  std::map<std::string, std::vector<std::string>> script; // per source: outcomes of its next calls in this op
+  std::map<std::string, std::vector<std::string>> script[8]; // per task, per source: outcomes of its next calls in this op
   std::map<std::string, long> calls;
   std::set<std::string> failed_sources;                   // sources that have ever failed in this process (may be memoised as broken)
-  std::set<int> open_fds;
+  std::map<int, int> open_fds;                            // simulated descriptor -> task that opened it
   int next_fd = 0;
   long full_draws = 0;
   unsigned long partials = 0;
